@@ -192,7 +192,7 @@ func runC02(w *mon.W) {
 		case 0:
 			return strings.Repeat(gen.Pick(w.Rng, []string{"a", "é", "ほ", "x-"}), 1+w.Rng.IntN(150))
 		case 1:
-			return gen.Pick(w.Rng, []string{"é", "è", "ほげ", "ふが", "σ"})
+			return gen.Pick(w.Rng, []string{"é", "è", "ほげ", "ふが", "σ", ".", ".."})
 		}
 		return gen.Pick(w.Rng, segs)
 	}
